@@ -124,7 +124,16 @@ def run(ctx):
     ctx.floor("R1", "xref_positions.insert sites", ins, 3)
     # R2 /Length and /Filter pairing
     stream_sites = 0
-    for fid in (W + "write_object_value", W + "flush_object_streams", W + "write_xref_stream"):
+    # the anchored emitters plus any other method of the writer that emits the keyword (a helper extracted from one of them)
+    r2_fids = [W + "write_object_value", W + "flush_object_streams", W + "write_xref_stream"]
+    for k in sorted(facts.fns):
+        if k.startswith(W) and k not in r2_fids and facts.fns[k].kind != "Closure":
+            for b, c, a, d in L.calls_to(facts.fns[k], [W + "write_bytes"]):
+                s0 = L.resolve_str_operand(facts.fns[k], a[1])
+                if s0 is not None and "stream" in s0 and "endstream" not in s0 and s0.strip() == "stream":
+                    r2_fids.append(k)
+                    break
+    for fid in r2_fids:
         fn = ctx.fn(fid, "R2")
         fl = FL.flow(fn)
         g = CF.cfg(fn)
